@@ -196,7 +196,7 @@ def _coord_checks(ctx, kind, form, o, orig, minimal, replay):
 
 def oracle_serial(ctx: Ctx, case):
     kind = case["kind"]
-    replay = {"kind": kind, "inst": case.get("inst"), "minimal": case.get("minimal", False)}
+    replay = {"kind": kind, "inst": case.get("inst"), "minimal": case.get("minimal", False), "fixed": case.get("fixed")}
     if "gen_exc" in case:
         ctx.oracle_fail(f"roundtrip:{kind}:to-form-raised", dict(replay, error=case["gen_exc"]), "serialising raised: " + case["gen_exc"])
         return
@@ -361,11 +361,11 @@ CHK = {"ts": "chk_ts", "grp": "chk_grp", "rec": "chk_rec", "coord": "chk_coord",
 
 
 def run(ctx: Ctx):
-    # known findings of this property: merged from the fragment too, so that the check works before assembly
+    # known findings of this property: the fragment known_findings.d/C18.json is authoritative (the assembled
+    # known_findings.json may lag behind it: an entry that became `fixed` must stop suppressing at once)
     frag = VERIF / "known_findings.d" / "C18.json"
     if frag.exists():
-        have = {k["id"] for k in ctx.known}
-        ctx.known += [k for k in json.loads(frag.read_text()) if k["id"] not in have and k["property"] == "C18"]
+        ctx.known = [k for k in json.loads(frag.read_text()) if k["property"] == "C18"]
     ctx.assumptions += [
         "pydantic / json / yaml / pickle machinery, lsst.sphgeom region encode/decode and uuid formatting are trusted (exercised on every run)",
         "the dimension universe enters the codec model as a finite `conform` table and record schemas read from the real universe for every case",
@@ -384,10 +384,12 @@ def run(ctx: Ctx):
 
     # ---- corpus first
     trees = []
+    fixed = []
     for f in sorted((VERIF / "corpus" / "C18").glob("*.json")):
         d = json.loads(f.read_text())
         for t in d.get("trees", []):
             trees.append((f.name, t))
+        fixed += d.get("fixed", [])
     if ctx.replay:
         d = json.loads(Path(ctx.replay).read_text())
         for t in d.get("trees", []):
@@ -400,6 +402,13 @@ def run(ctx: Ctx):
         else:
             cfg_obs += [(o, src) for o, (src, _) in zip(res, trees)]
 
+    corpus_serial = []
+    if fixed:
+        st, res = run_worker("c18_impl", "serial_cases", {"seed": 0, "fixed": fixed}, timeout=300)
+        if st != "ok":
+            ctx.tie_broken("harness", "corpus", f"corpus worker {st}: {str(res)[-300:]}")
+        else:
+            corpus_serial = res
     # ---- generated cases (worker subprocesses, seeded)
     base = ctx.seed * 1000
     nsh = 6 if ctx.quick else 16
@@ -410,7 +419,7 @@ def run(ctx: Ctx):
     payc = [("config_cases", {"seed": base + 500 + i, "n": n_cfg}) for i in range(nsh)]
     sres = parallel_workers("c18_impl", "serial_cases", [p for _, p in pay], timeout=900)
     cres_ = parallel_workers("c18_impl", "config_cases", [p for _, p in payc], timeout=900)
-    serial = []
+    serial = list(corpus_serial)
     for (st, res), (_, p) in zip(sres, pay):
         if st != "ok":
             ctx.tie_broken("harness", "serial worker", f"{st}: {str(res)[-400:]}")
